@@ -111,6 +111,18 @@ pub fn run(ctx: &mut Ctx) {
         let get = |id: &str| top.iter().find(|c| c.0 == id).map(|c| &bytes[c.1 + 8..c.1 + 8 + c.2]);
         let lay = top.iter().map(|c| format!("{}:{}", c.0, c.2)).collect::<Vec<_>>().join(",");
         if let Some(mohd) = get("MOHD") { ctx.out.case(&format!("c15root {lay} {}", hex(mohd)), "ok"); } else { ctx.out.oracle(false, "root-header-chunk-missing", &desc); continue; }
+        // the header record through the generic record codec (Lib.Record): seven counts and the packed ambient colour, then (behind
+        // the flags dword, which the writer adjusts per version) the bounding box by bit pattern
+        if let Some(mohd) = get("MOHD") { if mohd.len() >= 60 {
+            let c = &root.header.ambient_color;
+            let v: Vec<u32> = vec![root.materials.len() as u32, root.groups.len() as u32, root.portals.len() as u32, root.lights.len() as u32, root.doodad_defs.len() as u32, root.doodad_defs.len() as u32, root.doodad_sets.len() as u32,
+                (c.r as u32) << 16 | (c.g as u32) << 8 | c.b as u32 | (c.a as u32) << 24];
+            ctx.out.case(&format!("rec 4,4,4,4,4,4,4,4 {}", v.iter().map(|x| x.to_string()).collect::<Vec<_>>().join(",")), &hex(&mohd[..32]));
+            let bb = &root.bounding_box;
+            let f: Vec<String> = [bb.min.x, bb.min.y, bb.min.z, bb.max.x, bb.max.y, bb.max.z].iter().map(|x| x.to_bits().to_string()).collect();
+            ctx.out.case(&format!("rec 4,4,4,4,4,4 {}", f.join(",")), &hex(&mohd[36..60]));
+            ctx.out.stat("c15.rec.mohd");
+        } }
         if let (Some(mogn), Some(mogi)) = (get("MOGN"), get("MOGI")) {
             let offs: Vec<String> = mogi.chunks_exact(32).map(|e| u32::from_le_bytes([e[28], e[29], e[30], e[31]]).to_string()).collect();
             ctx.out.case(&format!("c15names {} {}", crate::c18_wdt::canon_rle(mogn), offs.join(",")), &root.groups.iter().map(|g| hex(g.name.as_bytes())).collect::<Vec<_>>().join(","));
